@@ -29,7 +29,7 @@ func (c12) Cases(tier string) int {
 }
 
 func (c12) Rule() string {
-	return "histories of 3-12 requests over 4 query texts (3 plannable, 1 invalid) and per-history consistent keys (the sha256 of the text or a client-chosen key), each request being {text only, text+key, key only}, with idle periods longer than 4x the TTL (150 ms) between some requests; a cached gateway (AutomaticQueryPlanCache) is driven through GetPlans+Execute next to an uncached twin over the same services; every response must be what the Lean cache model says for the measured history (plan of which text / planner error / PersistedQueryNotFound) and, when a plan, the data must equal the twin's for that text; NotFound must contact no service; a request without key must come back keyed by the sha256 of its text; every third case additionally fires 8 concurrent identical misses and then a key-only hit (race detector on); histories with a gap in the ambiguous zone (TTL/5 .. 4xTTL) are discarded; non-trivial = at least one key-only request; distinct = distinct history"
+	return "histories of 3-12 requests over 4 query texts (3 plannable, 1 invalid) and per-history consistent keys (the sha256 of the text or a client-chosen key), each request being {text only, text+key, key only}, with idle periods longer than 4x the TTL (150 ms) between some requests; a cached gateway (AutomaticQueryPlanCache) is driven through GetPlans+Execute next to an uncached twin over the same services; every response must be what the Lean cache model says for the measured history (plan of which text / planner error / PersistedQueryNotFound) and, when a plan, the data must equal the twin's for that text; NotFound must contact no service; a request without key must come back keyed by the sha256 of its text; every third case additionally fires 8 concurrent identical misses and then a key-only hit (race detector on); histories with a gap in the ambiguous zone (TTL/5 .. 4xTTL) are discarded; non-trivial = at least one key-only request; distinct = distinct history; two of the texts carry white space around the document (the text sent is the text hashed)"
 }
 
 var cacheTexts = []string{`{ me { firstName lastName } }`, `{ allUsers { firstName nick } }`, `{ topPhoto { url likes } }`, `{ nope }`,
